@@ -152,9 +152,18 @@ pub fn truth_answers(fx: &Fx, thread: &str, light: bool, max_anchors: usize) -> 
     all_answers_full(fx, thread, light, max_anchors, false, true)
 }
 
+thread_local! {
+    /// set by the C04 worker: called before every single query so that the watchdog measures one
+    /// query, not a whole list (the cache-less truth side rebuilds the caches for each of them)
+    static TICK: std::cell::Cell<Option<fn()>> = const { std::cell::Cell::new(None) };
+}
+
 fn all_answers_full(fx: &Fx, thread: &str, light: bool, max_anchors: usize, replay_last: bool, cacheless: bool) -> Vec<(String, Value)> {
     let store = fx.store();
     let pre = || {
+        if let Some(t) = TICK.with(|t| t.get()) {
+            t();
+        }
         if cacheless {
             fx.drop_caches();
         }
@@ -301,7 +310,24 @@ fn cache_snapshot(fx: &Fx, thread: &str) -> std::collections::BTreeMap<String, V
     m
 }
 
+thread_local! {
+    static LAST_BEGIN: std::cell::RefCell<Value> = const { std::cell::RefCell::new(Value::Null) };
+}
+
+/// Re-announces the current step (one line per query keeps the watchdog per query).
+fn tick() {
+    let v = LAST_BEGIN.with(|l| l.borrow().clone());
+    if !v.is_null() {
+        println!("{v}");
+        use std::io::Write;
+        let _ = std::io::stdout().flush();
+    }
+}
+
 fn announce(v: Value) {
+    if v["t"] == "begin" {
+        LAST_BEGIN.with(|l| *l.borrow_mut() = v.clone());
+    }
     println!("{v}");
     use std::io::Write;
     let _ = std::io::stdout().flush();
@@ -535,6 +561,7 @@ fn history_list(tier: Tier) -> Vec<Vec<HOp>> {
 }
 
 fn worker(opts: Opts) -> i32 {
+    TICK.with(|t| t.set(Some(tick)));
     let report = Report::new("C04", "fault_enumeration", opts.clone());
     let shard: usize = opts.extra.iter().find_map(|a| a.strip_prefix("shard=").and_then(|s| s.parse().ok())).unwrap_or(0);
     let of: usize = opts.extra.iter().find_map(|a| a.strip_prefix("of=").and_then(|s| s.parse().ok())).unwrap_or(1);
@@ -623,7 +650,8 @@ fn run_watched(report: &Report, args: Vec<String>) {
                 .stderr(Stdio::null())
                 .spawn()
                 .unwrap_or_else(|e| machinery_failure(&format!("spawn c04 confirmation worker: {e}")));
-            let until = std::time::Instant::now() + Duration::from_secs(4 * WATCHDOG_S + 60);
+            let heavy = hist.contains("big") || hist.contains("fill1");
+            let until = std::time::Instant::now() + Duration::from_secs(4 * WATCHDOG_S + 60 + if heavy { 900 } else { 0 });
             let mut finished = false;
             while std::time::Instant::now() < until {
                 if let Ok(Some(_)) = confirm.try_wait() {
@@ -699,7 +727,7 @@ pub fn run(opts: Opts) -> i32 {
          is distinct by (history, fault set, phase)",
     );
     report.assume("truth side of the differential = a fresh authority on a copy of the same store whose continuity_streams/ directory is removed before EVERY query (each answer is computed from the log; caches a query rebuilds are never read)");
-    report.assume("every worker runs under a 25 s watchdog per announced step (slowest legitimate step measured < 3 s); a step that exceeds it is re-run alone with 160 s before it is reported as non-termination");
+    report.assume("every worker runs under a 25 s watchdog per announced step (slowest legitimate step measured < 3 s); the watchdog is per query; a query that exceeds it is confirmed by re-running its history alone (160 s, 1060 s for window-crossing threads) before it is reported as non-termination");
     if let Some(path) = &opts.replay {
         let case = crate::common::load_replay_case(path);
         let hist = case["history"].as_array().or(case["last_announced"]["history"].as_array()).map(|a| a.iter().filter_map(|v| v.as_str()).collect::<Vec<_>>().join(",")).unwrap_or_default();
